@@ -742,6 +742,10 @@ def corrupt_session(chk, recs):
         if k in seen:
             first = next(i for i, r in enumerate(recs) if r["ses"] == rec["ses"])
             bad = json.loads(json.dumps(recs[first:j + 1]))
+            _r0, rej0, _ = validate_records(bad)
+            if rej0 is not None:          # the session is rejected as recorded (a library violation, reported by the
+                seen.add(k)               # validation above): it cannot serve the corrupt-one-field self-test
+                continue
             bad[-1]["dig"] += 7
             r, rej, _ = validate_records(bad)
             chk.add_tlc(r, "TraceConditional corrupt-session")
